@@ -9,7 +9,12 @@
    beta v      the function and method bodies of version v: versions differ in bodies only;
    histories   any list of  Load v | store (capture a function value, a bound method, an instance, a
                scalar into a host slot, a global variable or an instance field) | call | identity test,
-               from the empty VM.  hist_ok: scripts and host never assign to the NAME of a declared
+               from the empty VM, IN WHICH NO STEP FAILS: every theorem below has the premise
+               run ... = Some (st, o); `run` is None as soon as one step panics in the model (a call of a
+               non-function, a path through a nil receiver or a missing slot, a Load that finds a
+               non-function in a function's name ...).  About histories with a failing step -- in particular
+               about the state a failed Load leaves behind -- nothing is said.
+               hist_ok: scripts and host never assign to the NAME of a declared
                function or type (not expressible in Go). *)
 From Coq Require Import ZArith List Bool.
 From GV Require Import Model.Reload Proofs.C17_reload Proofs.C17_hist Proofs.C17_idem Proofs.C17_closed.
@@ -17,9 +22,12 @@ Import ListNotations.
 Open Scope Z_scope.
 
 (* one function object per declared function / method, from its first Load on and for the rest of the
-   history: its address never changes (so a global holding a function never becomes nil again), distinct
-   declarations have distinct objects, a bound method keeps receiver and target object, and the Values
-   the host captured stay what they were *)
+   history: its address never changes, distinct declarations have distinct objects, a bound method keeps
+   receiver and target object, and the Values the host captured stay what they were.
+   Consequence of conjunct 1 for globals: the global NAMED AFTER a declared function f (key KFunc f) holds
+   the same function object for the rest of the history -- it never becomes nil again.  This is about the
+   declared function NAMES only (protected by hist_ok); an ordinary variable into which a function value
+   was copied may of course be overwritten by a later store. *)
 Theorem c17_identity : forall S, wf_sig S -> forall beta,
   forall h1 h2 st1 o1 st2 o2, hist_ok S h1 -> hist_ok S h2 ->
     run (prog S beta) init_state h1 = Some (st1, o1) -> run (prog S beta) st1 h2 = Some (st2, o2) ->
@@ -61,14 +69,17 @@ Theorem c17_any_call : forall S, wf_sig S -> forall beta,
          (exists r a, recv = Some r /\ nth_error (funcs st) c = Some (FBound r a) /\ fn_addr st k = Some a)).
 Proof. exact any_call. Qed.
 
-(* state across one Load, from ANY machine state: `var n T` keeps a non-nil value; `var n = c` holds c;
-   `var n = f` holds THE object of f; host slots and existing instances are untouched *)
+(* state across one Load, from ANY machine state st (no invariant, no reachability premise in any of the
+   four conjuncts) on which the Load does not fail (exec_list ... = Some st'; from an arbitrary state it may
+   fail, e.g. when the name of a function holds a number): `var n T` keeps a non-nil value; `var n = c`
+   holds c; `var n = f` holds THE object of f (the one the global f holds after the Load); host slots and
+   existing instances are untouched *)
 Theorem c17_state : forall S B, wf_sig S ->
   (forall st st' n z, In (VZero n z) (svars S) -> exec_list st (version_of S B) = Some st' ->
      gget st' n = if is_nil (gget st n) then z else gget st n) /\
   (forall st st' n z, In (VSet n (EArg (AConst z))) (svars S) -> exec_list st (version_of S B) = Some st' ->
      gget st' n = VInt z) /\
-  (forall st st' n f, In (VSet n (EArg (APath (PGlobal f)))) (svars S) -> In f (sfuncs S) -> Inv S st ->
+  (forall st st' n f, In (VSet n (EArg (APath (PGlobal f)))) (svars S) -> In f (sfuncs S) ->
      exec_list st (version_of S B) = Some st' -> gget st' n = gget st' f /\ exists a, gget st' f = VFunc a) /\
   (forall st st', exec_list st (version_of S B) = Some st' ->
      slots st' = slots st /\ exists y, (insts st' = insts st ++ y)%list).
